@@ -217,6 +217,9 @@ class Array:
                     if product(d['shape']) == 0:  # empty file/array
                         self._memmap = np.zeros(d['shape'], dtype=dtypedescr,
                                                 order=d['arrayorder'])
+                        # in-memory substitute should be as (non-)writeable
+                        # as a memmap opened in this mode would be
+                        self._memmap.flags.writeable = (memmapmode == 'r+')
                     else:
                         self._memmap = np.memmap(filename=fd,
                                                  mode=memmapmode,
